@@ -465,7 +465,8 @@ func (t *timeDependentDurationExpressionImpl) ValueAtValue(
 
 	fractionCovered := (element.end - value) / duration
 
-	if fractionCovered >= 1 {
+	// The last element has no successor, it is in force from its start on.
+	if fractionCovered >= 1 || element.next == nil {
 		return duration
 	}
 
@@ -483,7 +484,7 @@ func (t *timeDependentDurationExpressionImpl) ValueAtValue(
 		fractionCurrentElementCanProvide := (element.end - element.start) /
 			requiredDuration
 
-		if fractionCurrentElementCanProvide >= 1 {
+		if fractionCurrentElementCanProvide >= 1 || element.next == nil {
 			return duration + requiredDuration
 		}
 
